@@ -35,6 +35,10 @@ ANNIHILATING = {'jax.lax.stop_gradient', 'jax.numpy.round', 'jax.numpy.rint', 'j
                 'jax.numpy.heaviside', 'jax.numpy.digitize'}
 NONSMOOTH = {'jax.numpy.linalg.norm', 'numpy.linalg.norm', 'jax.numpy.sqrt', 'jax.numpy.arccos', 'jax.numpy.arcsin', 'jax.numpy.log', 'jax.numpy.cbrt', 'jax.numpy.hypot',
              'jax.numpy.reciprocal', 'jax.numpy.arctan2', 'jax.numpy.angle', 'jax.numpy.abs', 'jax.numpy.absolute', 'jax.numpy.std', 'jax.numpy.var'}
+# derivative convention at a kink differs from the symmetric one of maximum / minimum / abs (which equals the central difference of a
+# piecewise-linear function at the tie): relu-type activations return the one-sided derivative 0 at 0
+ONE_SIDED = {'jax.nn.relu', 'jax.nn.relu6', 'jax.nn.leaky_relu', 'jax.nn.elu', 'jax.nn.hard_tanh', 'jax.nn.hard_sigmoid', 'jax.nn.celu', 'jax.nn.selu', 'jax.nn.hard_swish',
+             'jax.nn.hard_silu'}
 ALLOW = {
     # (entry qualname suffix or '*', hazard) -> reason
     ('held_suarez.HeldSuarezForcing.explicit_terms', 'jax.numpy.log'): 'log of p/p0 with positive surface pressure (exp of the prognostic log-pressure)',
@@ -75,7 +79,7 @@ def entry_points(prog):
                 (f'{PE}.compute_diagnostic_state', ['state']), (f'{PE}.compute_vertical_velocity', ['state']), (f'{PE}.semi_lagrangian_vertical_advection_step', ['state']),
                 (f'{PE}.get_geopotential', ['temperature_variation', 'orography']), (f'{PE}.get_geopotential_with_moisture', ['temperature', 'specific_humidity', 'nodal_orography']),
                 (f'{PE}.get_geopotential_diff', ['temperature']), (f'{PE}.get_temperature_implicit', ['divergence']), (f'{PE}.div_sec_lat', ['m_component', 'n_component']),
-                (f'{VI}.interp', ['x', 'fp']), (f'{VI}._dot_interp', ['x', 'fp']), (f'{VI}.linear_interp_with_linear_extrap', ['x', 'fp']), (f'{VI}._linear_interp_with_safe_extrap', ['x', 'fp']),
+                (f'{VI}.interp', ['x', 'xp', 'fp']), (f'{VI}._dot_interp', ['x', 'fp']), (f'{VI}.linear_interp_with_linear_extrap', ['x', 'fp']), (f'{VI}._linear_interp_with_safe_extrap', ['x', 'fp']),
                 (f'{VI}.vertical_interpolation', ['x', 'fp']), (f'{VI}.interp_pressure_to_sigma', ['fields', 'surface_pressure']), (f'{VI}.interp_sigma_to_pressure', ['fields', 'surface_pressure']),
                 (f'{VI}.interp_hybrid_to_sigma', ['fields', 'surface_pressure']), (f'{VI}.regrid_hybrid_to_sigma', ['fields', 'surface_pressure']), (f'{VI}.get_surface_pressure', ['geopotential', 'orography']),
                 ('sigma_coordinates.centered_difference', ['x']), ('sigma_coordinates.cumulative_sigma_integral', ['x']), ('sigma_coordinates.sigma_integral', ['x']),
@@ -107,6 +111,9 @@ def hazards_in(term, is_data):
         # only the taken branch is differentiated: at states on the branch boundary (e.g. a field that is exactly zero) the
         # derivative is that of the wrong branch unless both agree to first order
         out.append((n + ' on a data-dependent predicate', t))
+        continue
+      if n in ONE_SIDED and any(sym.contains(x, is_data) for x in args if isinstance(x, Term)):
+        out.append((n + ' (one-sided derivative at the kink: 0 at 0, where the central difference of the piecewise-linear function is ½)', t))
         continue
       if (n in ANNIHILATING or n in NONSMOOTH) and any(sym.contains(x, is_data) for x in args if isinstance(x, Term)):
         out.append((n, t))
@@ -214,6 +221,34 @@ def rule_taint(chk, prog):
   chk.at_least(rule, 70)
 
 
+def rule_custom_rules(chk, prog):
+  """Hand-written derivative rules are outside the taint argument: each must pass on the tangent of every differentiable argument."""
+  import ast
+  import os
+  from sa import custom_deriv
+  rule = 'C08.4-custom-derivative-rules-complete'
+  n = 0
+  for name, m in sorted(prog.modules.items()):
+    short = name.replace('dinosaur.', '')
+    if short.endswith('_test'):
+      continue
+    sites = custom_deriv.scan(m.tree)
+    for s_ in sites:
+      for arg, text in s_.problems:
+        chk.violation(rule, f'{short}.{s_.name}: {s_.kind} rule {s_.rule or "?"}, argument {arg}', text, (m.relpath, s_.lineno), 'the returned tangent depends on the tangent of every differentiable argument', text)
+      if not s_.problems:
+        chk.ok(rule, f'{short}.{s_.name}: {s_.kind} rule {s_.rule} uses the tangent / returns a cotangent of every differentiable argument', str(s_.params), (m.relpath, s_.lineno))
+    n += 1
+  chk.ok(rule, f'{n} modules scanned for jax.custom_jvp / jax.custom_vjp definitions (decorator, partial and call forms) and their defjvp / defjvps / defvjp registrations', '')
+  fx = os.path.join(os.path.dirname(os.path.dirname(os.path.abspath(__file__))), 'fixtures', 'custom_deriv_fixture', 'dinosaur', 'fixture.py')
+  got = {s_.name: sorted(a for a, _ in s_.problems) for s_ in custom_deriv.scan(ast.parse(open(fx).read()))}
+  want = {'complete': [], 'drops_y': ['y'], 'with_static': ['y'], 'vjp_zero': ['y'], 'wholesale': []}
+  if got != want:
+    raise AnalysisError(f'positive fixture for {rule} no longer matches ({got}): the scan is blind or over-eager')
+  chk.ok(rule, 'positive fixture fixtures/custom_deriv_fixture: the three incomplete rules are reported, the two complete ones are not', str(got))
+  chk.at_least(rule, 2)
+
+
 def rule_static(chk, prog):
   from rules import c02, c03
   before = len(chk.instances)
@@ -275,6 +310,7 @@ def note_double_where(chk, prog):
 
 
 def run(chk, prog, tier):
+  rule_custom_rules(chk, prog)
   rule_taint(chk, prog)
   rule_static(chk, prog)
   rule_checkpoint(chk, prog)
